@@ -28,6 +28,7 @@ inline void print_byte(std::ostream& out, uint8_t x)
         case 9: out << "\\t"; return;
         case 10: out << "\\n"; return;
         case 13: out << "\\r"; return;
+        case 39: out << "\\'"; return;
         case 92: out << "\\\\"; return;
     }
     if ((x >= 32) && (x <= 126))
